@@ -472,6 +472,7 @@ func cmdCheck(args []string) int {
 	a := newAgg()
 	digests := make([]string, n)
 	verdicts := make([]string, n)
+	raceTexts := map[int]string{}
 	var viols []violationRec
 	var infra []string
 	var samples []interface{}
@@ -485,6 +486,9 @@ func cmdCheck(args []string) int {
 		digests[j.ID] = r.Digest
 		cl := classOf(r)
 		verdicts[j.ID] = cl
+		if r.RaceText != "" && len(raceTexts) < 64 {
+			raceTexts[j.ID] = r.RaceText
+		}
 		if r.Crash != "" {
 			kind, _ := crashSignature(r.Crash)
 			switch kind {
@@ -545,6 +549,12 @@ func cmdCheck(args []string) int {
 		if r.Digest != digests[j.ID] || classOf(r) != verdicts[j.ID] {
 			if mism < 5 {
 				fmt.Fprintf(os.Stderr, "NONDETERMINISM: seed %d digest %s/%s verdict %q/%q\n", j.Seed, digests[j.ID], r.Digest, verdicts[j.ID], classOf(r))
+				if t := raceTexts[j.ID]; t != "" {
+					fmt.Fprintf(os.Stderr, "race report of the first execution:\n%s\n", tail(t, 6000))
+				}
+				if r.RaceText != "" {
+					fmt.Fprintf(os.Stderr, "race report of the second execution:\n%s\n", tail(r.RaceText, 6000))
+				}
 			}
 			mism++
 		}
